@@ -671,6 +671,32 @@ func Run1(t *testing.T, c Case) (res Result) {
 				}
 				return r.Intended, nil
 			})
+		case "H7c-wal-unwritten-tail":
+			// An earlier WAL transaction grew the database and its last page never got a frame (a free-list leaf
+			// allocated and freed again inside the transaction): the page exists only as the end of the file that the
+			// next checkpoint - SQLite's or the one recovery performs - has to produce. Variant 1: SQLite-visible
+			// transactions only rewrite an old page afterwards, so the newest LTX file does not carry the tail.
+			e.single(t, true, func(n *lab.Node, a *pager.Conn, img *oracle.Image) *oracle.Image {
+				r := a.RunWTx(pager.WTx{Frames: []uint32{1, s + 1}, NewSize: s + 2, FreeLeaves: true, Outcome: "commit"}, img)
+				if r.Err != nil || !r.Committed {
+					e.res.Harness = fmt.Sprintf("prep wtx failed: %v at %s", r.Err, r.ErrStep)
+					return nil
+				}
+				if c.Variant == 1 {
+					r = a.RunWTx(pager.WTx{Frames: []uint32{2}, Outcome: "commit"}, r.Intended)
+					if r.Err != nil || !r.Committed {
+						e.res.Harness = fmt.Sprintf("prep wtx 2 failed: %v at %s", r.Err, r.ErrStep)
+						return nil
+					}
+				}
+				return r.Intended
+			}, func(n *lab.Node, col *collector, a *pager.Conn, img *oracle.Image) (*oracle.Image, error) {
+				r := a.RunWTx(pager.WTx{Frames: []uint32{1, 2}, Outcome: "commit"}, img)
+				if r.Err != nil || !r.Committed {
+					return nil, fmt.Errorf("%v at %s", r.Err, r.ErrStep)
+				}
+				return r.Intended, nil
+			})
 		case "H8-sqlite-checkpoint":
 			modes := []string{"PASSIVE", "FULL", "RESTART", "TRUNCATE"}
 			e.single(t, true, func(n *lab.Node, a *pager.Conn, img *oracle.Image) *oracle.Image {
@@ -962,7 +988,7 @@ func RunAll(run *vlib.Run, only func(h string) bool) map[string]any {
 		variants int
 	}{
 		{"H1-first-tx", 6}, {"H2-grow", 3}, {"H3-shrink", 3}, {"H4-multi-segment", 3}, {"H4b-segment-ends-on-sector-boundary", 1}, {"H5-rollback-after-spill", 3},
-		{"H6-wal-fresh", 3}, {"H7-wal-after-restart", 2}, {"H7b-wal-second-tx", 2}, {"H8-sqlite-checkpoint", 4}, {"H8b-wal-tx-after-checkpoint", 2}, {"H9-litefs-recover", 2},
+		{"H6-wal-fresh", 3}, {"H7-wal-after-restart", 2}, {"H7b-wal-second-tx", 2}, {"H7c-wal-unwritten-tail", 2}, {"H8-sqlite-checkpoint", 4}, {"H8b-wal-tx-after-checkpoint", 2}, {"H9-litefs-recover", 2},
 		{"H12-drop", 6}, {"H16-leave-wal", 3}, {"H14-import", 4}, {"H10-replica-incremental", 2}, {"H10w-replica-incremental-wal", 2}, {"H11-replica-snapshot", 2}, {"H11b-replica-resnapshot", 2}, {"H11c-replica-fork-resnapshot", 4}, {"H15-restore-from-backup", 2}, {"H13-replica-tombstone", 2},
 	}
 	type geo struct {
